@@ -1,100 +1,21 @@
 /-
   C16 witnesses: concrete inputs on which the LITERAL reading of C16 fails.
 
-  F1 repaired in /repo commit 'fix: equality connect/weld rows were dropped silently…'; the exact-fit theorems now
-  hold (see C16.lean: `equality_connect_exact_fit`, `equality_weld_exact_fit`, `row_overflow_never_silent_all`).  The
-  former exact-fit witnesses were removed; `Alloc.geMinusGuard` / `C16.geMinusGuard_not_ideal` remain in the model as
-  a record of why the old guard was wrong.
+  There is none left.  Both defects this property found were repaired in /repo, Gen was regenerated, and the
+  statements that used to be false are now theorems of `Props/C16.lean`:
 
-  Still OPEN (F2/F3, NJMAX_NNZ):
-  W3 a single sparse connect thread whose nnz request (3) exceeds `njmax_nnz = 2`: rows 0..2 allocated and counted,
-     nnz guard fails, no per-row array written at all; `_next_time` reads the zero-initialised
-     `efc_J_rowadr/rownnz[0, 2]` and sets NO bit.
-  W4 two sparse joint equalities, `njmax_nnz = 1`: thread A (row 0, rowadr 0, nnz 1) is granted, thread B
-     (row 1 = the LAST row, rowadr 1, nnz 1: 1 + 1 > 1) is dropped after having written `rownnz[1] = 1`;
-     `_next_time` adds the stale `rowadr[1] = 0`: 0 + 1 ≤ 1, no bit.
+  F1  repaired in /repo commit 'fix: equality connect/weld rows were dropped silently when they fit the row capacity
+      exactly'; the exact-fit theorems now hold (`C16.equality_connect_exact_fit`, `C16.equality_weld_exact_fit`,
+      `C16.row_overflow_never_silent_all`).  `Alloc.geMinusGuard` / `C16.geMinusGuard_not_ideal` remain in the model
+      as a record of why the old guard was wrong.
+  F2  repaired in /repo commits 'fix: njmax_nnz overflow was silent unless the last constraint row happened to record it'
+      (new kernel `_nnz_overflow`) and 'fix: a row dropped for lack of njmax_nnz kept its non-zero count (out-of-bounds
+      read of efc.J)'; now proved: `C16.nnz_overflow_never_silent`, `C16.<builder>_nnz_overflow_never_silent`,
+      `C16.<builder>_dropped_row_has_no_nonzeros`.  The former witnesses (`nnz_overflow_silent_witness`,
+      `nnz_overflow_silent_two_joints_witness`, which showed `_next_time` alone staying silent) were removed: the step
+      is no longer silent on those inputs.
 -/
 import MjwVerif.Props.C16
-set_option linter.unusedVariables false
-set_option linter.unusedSimpArgs false
-set_option linter.unusedSectionVars false
 
 namespace Mjw.Props.C16Witness
-open Mjw Mjw.Alloc Mjw.Lemmas.C16 Mjw.Props.C16
-
-
-/-! ## W3: NJMAX_NNZ overflow of a single connect thread is silent -/
-section nnz_connect
-variable {K : Type} [Scalar K] (nv : Int) (opt_timestep : (Int → K)) (opt_disableflags : Int) (body_parentid : (Int → Int)) (body_rootid : (Int → Int)) (body_invweight0 : (Int → Int → V2 K)) (jnt_type : (Int → Int)) (jnt_dofadr : (Int → Int)) (dof_bodyid : (Int → Int)) (dof_jntid : (Int → Int)) (site_bodyid : (Int → Int)) (eq_obj1id : (Int → Int)) (eq_obj2id : (Int → Int)) (eq_objtype : (Int → Int)) (eq_solref : (Int → Int → V2 K)) (eq_solimp : (Int → Int → V5 K)) (eq_data : (Int → Int → V11 K)) (body_isdofancestor : (Int → Int → Int)) (eq_connect_adr : (Int → Int)) (qvel_in : (Int → Int → K)) (xpos_in : (Int → Int → V3 K)) (xmat_in : (Int → Int → M33 K)) (site_xpos_in : (Int → Int → V3 K)) (subtree_com_in : (Int → Int → V3 K)) (cdof_in : (Int → Int → V6 K)) (cvel_in : (Int → Int → V6 K)) (cdof_dot_in : (Int → Int → V6 K)) (subtree_linvel_in : (Int → Int → V3 K)) (ne_out : (Int → Int)) (nefc_out : (Int → Int)) (efc_type_out : (Int → Int → Int)) (efc_id_out : (Int → Int → Int)) (efc_jtdaj_adr_out : (Int → Int → Int)) (efc_jtdaj_nrow_out : (Int → Int → Int)) (efc_jtdaj_nblock_out : (Int → Int)) (efc_J_rownnz_out : (Int → Int → Int)) (efc_J_rowadr_out : (Int → Int → Int)) (efc_J_colind_out : (Int → Int → Int → Int)) (efc_J_out : (Int → Int → Int → K)) (efc_pos_out : (Int → Int → K)) (efc_margin_out : (Int → Int → K)) (efc_D_out : (Int → Int → K)) (efc_vel_out : (Int → Int → K)) (efc_aref_out : (Int → Int → K)) (efc_frictionloss_out : (Int → Int → K)) (efc_nnz_out : (Int → Int)) (st_is_sparse_and_newton : Bool) (alloc1 : Int) (eq_data_shape0 : Int) (body_invweight0_shape0 : Int) (eq_solref_shape0 : Int) (eq_solimp_shape0 : Int) (opt_timestep_shape0 : Int) (tid0 : Int) (tid1 : Int)
-
-/-- sparse connect between two bodies with one dof each (`rownnz = 1`, request `3·1 = 3`), `njmax_in = 4`,
-    `njmax_nnz_in = 2`, `alloc0 = alloc2 = 0`: the rows pass the row guard (`0 + 3 ≤ 4`), the nnz request does not
-    fit (`0 + 3 > 2`), and the thread writes no per-row array at all. -/
-theorem nnz_overflow_silent_witness_builder :
-    allocReq (Gen.Constraint._equality_connect__kernel nv (0 : Int) opt_timestep opt_disableflags body_parentid body_rootid (fun _ => 0) (fun _ => 1) (fun _ => 0) body_invweight0 jnt_type jnt_dofadr dof_bodyid dof_jntid (fun _ => -1) site_bodyid eq_obj1id eq_obj2id eq_objtype eq_solref eq_solimp eq_data body_isdofancestor eq_connect_adr qvel_in (fun _ _ => true) xpos_in xmat_in site_xpos_in subtree_com_in cdof_in cvel_in cdof_dot_in subtree_linvel_in (4 : Int) (2 : Int) ne_out nefc_out efc_type_out efc_id_out efc_jtdaj_adr_out efc_jtdaj_nrow_out efc_jtdaj_nblock_out efc_J_rownnz_out efc_J_rowadr_out efc_J_colind_out efc_J_out efc_pos_out efc_margin_out efc_D_out efc_vel_out efc_aref_out efc_frictionloss_out efc_nnz_out (0 : Int) st_is_sparse_and_newton alloc1 eq_data_shape0 true (0 : Int) body_invweight0_shape0 eq_solref_shape0 eq_solimp_shape0 opt_timestep_shape0 (2 : Nat) tid0 tid1) "nefc_out" [tid0] 3
-    ∧ allocReq (Gen.Constraint._equality_connect__kernel nv (0 : Int) opt_timestep opt_disableflags body_parentid body_rootid (fun _ => 0) (fun _ => 1) (fun _ => 0) body_invweight0 jnt_type jnt_dofadr dof_bodyid dof_jntid (fun _ => -1) site_bodyid eq_obj1id eq_obj2id eq_objtype eq_solref eq_solimp eq_data body_isdofancestor eq_connect_adr qvel_in (fun _ _ => true) xpos_in xmat_in site_xpos_in subtree_com_in cdof_in cvel_in cdof_dot_in subtree_linvel_in (4 : Int) (2 : Int) ne_out nefc_out efc_type_out efc_id_out efc_jtdaj_adr_out efc_jtdaj_nrow_out efc_jtdaj_nblock_out efc_J_rownnz_out efc_J_rowadr_out efc_J_colind_out efc_J_out efc_pos_out efc_margin_out efc_D_out efc_vel_out efc_aref_out efc_frictionloss_out efc_nnz_out (0 : Int) st_is_sparse_and_newton alloc1 eq_data_shape0 true (0 : Int) body_invweight0_shape0 eq_solref_shape0 eq_solimp_shape0 opt_timestep_shape0 (2 : Nat) tid0 tid1) "efc_nnz_out" [tid0] 3
-    ∧ ¬ allocFits (Gen.Constraint._equality_connect__kernel nv (0 : Int) opt_timestep opt_disableflags body_parentid body_rootid (fun _ => 0) (fun _ => 1) (fun _ => 0) body_invweight0 jnt_type jnt_dofadr dof_bodyid dof_jntid (fun _ => -1) site_bodyid eq_obj1id eq_obj2id eq_objtype eq_solref eq_solimp eq_data body_isdofancestor eq_connect_adr qvel_in (fun _ _ => true) xpos_in xmat_in site_xpos_in subtree_com_in cdof_in cvel_in cdof_dot_in subtree_linvel_in (4 : Int) (2 : Int) ne_out nefc_out efc_type_out efc_id_out efc_jtdaj_adr_out efc_jtdaj_nrow_out efc_jtdaj_nblock_out efc_J_rownnz_out efc_J_rowadr_out efc_J_colind_out efc_J_out efc_pos_out efc_margin_out efc_D_out efc_vel_out efc_aref_out efc_frictionloss_out efc_nnz_out (0 : Int) st_is_sparse_and_newton alloc1 eq_data_shape0 true (0 : Int) body_invweight0_shape0 eq_solref_shape0 eq_solimp_shape0 opt_timestep_shape0 (2 : Nat) tid0 tid1) "efc_nnz_out" [tid0] 0 2
-    ∧ ∀ w ∈ (Gen.Constraint._equality_connect__kernel nv (0 : Int) opt_timestep opt_disableflags body_parentid body_rootid (fun _ => 0) (fun _ => 1) (fun _ => 0) body_invweight0 jnt_type jnt_dofadr dof_bodyid dof_jntid (fun _ => -1) site_bodyid eq_obj1id eq_obj2id eq_objtype eq_solref eq_solimp eq_data body_isdofancestor eq_connect_adr qvel_in (fun _ _ => true) xpos_in xmat_in site_xpos_in subtree_com_in cdof_in cvel_in cdof_dot_in subtree_linvel_in (4 : Int) (2 : Int) ne_out nefc_out efc_type_out efc_id_out efc_jtdaj_adr_out efc_jtdaj_nrow_out efc_jtdaj_nblock_out efc_J_rownnz_out efc_J_rowadr_out efc_J_colind_out efc_J_out efc_pos_out efc_margin_out efc_D_out efc_vel_out efc_aref_out efc_frictionloss_out efc_nnz_out (0 : Int) st_is_sparse_and_newton alloc1 eq_data_shape0 true (0 : Int) body_invweight0_shape0 eq_solref_shape0 eq_solimp_shape0 opt_timestep_shape0 (2 : Nat) tid0 tid1), w.arr ∉ rowArrays := by
-  refine ⟨?_, ?_, ?_, ?_⟩
-  · unfold Gen.Constraint._equality_connect__kernel; cases st_is_sparse_and_newton <;> ksimp [Mjw.whileFuel]
-  · unfold Gen.Constraint._equality_connect__kernel; cases st_is_sparse_and_newton <;> ksimp [Mjw.whileFuel]
-  · unfold Gen.Constraint._equality_connect__kernel; cases st_is_sparse_and_newton <;> ksimp [Mjw.whileFuel]
-  · show AllW (fun w => w.arr ∉ rowArrays) _
-    unfold Gen.Constraint._equality_connect__kernel; cases st_is_sparse_and_newton <;> ksimp [Mjw.whileFuel]
-end nnz_connect
-
-section nnz_connect_nt
-variable {K : Type} [Scalar K] (opt_timestep : (Int → K)) (time_in : (Int → K)) (nworld_in : Int) (time_out : (Int → K)) (opt_timestep_shape0 : Int) (st_warn_overflow : Bool) (tid0 : Int)
-
-/-- … and `_next_time` of that world (`nefc = 3 ≤ njmax = 4`, sparse, zero-initialised `efc_J_rowadr/rownnz`, no
-    contact overflow, clear word on entry) writes only `time_out`: NO overflow bit although the world's nnz demand
-    (3) exceeds `njmax_nnz = 2` and three counted rows are missing. -/
-theorem nnz_overflow_silent_witness :
-    (∀ w ∈ (Gen.Forward._next_time_builder___next_time opt_timestep true (fun _ => 3) time_in (fun _ _ => 0) (fun _ _ => 0) nworld_in (0 : Int) (4 : Int) (2 : Int) (fun _ => 0) (fun _ => 0) time_out (fun _ => 0) opt_timestep_shape0 st_warn_overflow tid0), w.arr ≠ "overflow_out")
-    ∧ Write.lookupI (Gen.Forward._next_time_builder___next_time opt_timestep true (fun _ => 3) time_in (fun _ _ => 0) (fun _ _ => 0) nworld_in (0 : Int) (4 : Int) (2 : Int) (fun _ => 0) (fun _ => 0) time_out (fun _ => 0) opt_timestep_shape0 st_warn_overflow tid0) "overflow_out" [tid0] 0 = 0 := by
-  have hws : (Gen.Forward._next_time_builder___next_time opt_timestep true (fun _ => 3) time_in (fun _ _ => 0) (fun _ _ => 0) nworld_in (0 : Int) (4 : Int) (2 : Int) (fun _ => 0) (fun _ => 0) time_out (fun _ => 0) opt_timestep_shape0 st_warn_overflow tid0) = [⟨"time_out", [tid0], WVal.f (time_in tid0 + opt_timestep (Int.tmod tid0 opt_timestep_shape0)), WKind.set⟩] := by
-    unfold Gen.Forward._next_time_builder___next_time
-    simp
-  rw [hws]
-  refine ⟨by simp, by simp [Write.lookupI]⟩
-end nnz_connect_nt
-
-
-/-! ## W4: the dropped thread owns the last row -/
-section nnz_joint
-variable {K : Type} [Scalar K] (nv : Int) (opt_timestep : (Int → K)) (opt_disableflags : Int) (qpos0 : (Int → Int → K)) (jnt_qposadr : (Int → Int)) (jnt_dofadr : (Int → Int)) (dof_invweight0 : (Int → Int → K)) (eq_obj1id : (Int → Int)) (eq_solref : (Int → Int → V2 K)) (eq_solimp : (Int → Int → V5 K)) (eq_data : (Int → Int → V11 K)) (eq_jnt_adr : (Int → Int)) (qpos_in : (Int → Int → K)) (qvel_in : (Int → Int → K)) (ne_out : (Int → Int)) (nefc_out : (Int → Int)) (efc_type_out : (Int → Int → Int)) (efc_id_out : (Int → Int → Int)) (efc_jtdaj_adr_out : (Int → Int → Int)) (efc_jtdaj_nrow_out : (Int → Int → Int)) (efc_jtdaj_nblock_out : (Int → Int)) (efc_J_rownnz_out : (Int → Int → Int)) (efc_J_rowadr_out : (Int → Int → Int)) (efc_J_colind_out : (Int → Int → Int → Int)) (efc_J_out : (Int → Int → Int → K)) (efc_pos_out : (Int → Int → K)) (efc_margin_out : (Int → Int → K)) (efc_D_out : (Int → Int → K)) (efc_vel_out : (Int → Int → K)) (efc_aref_out : (Int → Int → K)) (efc_frictionloss_out : (Int → Int → K)) (efc_nnz_out : (Int → Int)) (st_is_sparse_and_newton : Bool) (alloc1 : Int) (eq_data_shape0 : Int) (qpos0_shape0 : Int) (dof_invweight0_shape0 : Int) (opt_timestep_shape0 : Int) (eq_solref_shape0 : Int) (eq_solimp_shape0 : Int) (cl_rowadr : Int) (tid0 : Int) (tid1 : Int)
-
-/-- thread B: single-joint equality (`rownnz = 1`), `alloc0 = 1` (row 1 of `njmax_in = 2`), `alloc2 = 1` (thread A took
-    nnz cell 0), `njmax_nnz_in = 1`: the nnz request does not fit (`1 + 1 > 1`); B has written `efc_J_rownnz_out[w,1] = 1`,
-    never writes `efc_J_rowadr_out` nor its row. -/
-theorem nnz_overflow_silent_two_joints_witness_builder :
-    reached (Gen.Constraint._equality_joint__kernel nv opt_timestep opt_disableflags qpos0 jnt_qposadr jnt_dofadr dof_invweight0 eq_obj1id (fun _ => -1) eq_solref eq_solimp eq_data eq_jnt_adr qpos_in qvel_in (fun _ _ => true) (2 : Int) (1 : Int) ne_out nefc_out efc_type_out efc_id_out efc_jtdaj_adr_out efc_jtdaj_nrow_out efc_jtdaj_nblock_out efc_J_rownnz_out efc_J_rowadr_out efc_J_colind_out efc_J_out efc_pos_out efc_margin_out efc_D_out efc_vel_out efc_aref_out efc_frictionloss_out efc_nnz_out (1 : Int) st_is_sparse_and_newton alloc1 eq_data_shape0 qpos0_shape0 dof_invweight0_shape0 true (1 : Int) opt_timestep_shape0 eq_solref_shape0 eq_solimp_shape0 cl_rowadr tid0 tid1) "nefc_out" [tid0]
-    ∧ ¬ allocFits (Gen.Constraint._equality_joint__kernel nv opt_timestep opt_disableflags qpos0 jnt_qposadr jnt_dofadr dof_invweight0 eq_obj1id (fun _ => -1) eq_solref eq_solimp eq_data eq_jnt_adr qpos_in qvel_in (fun _ _ => true) (2 : Int) (1 : Int) ne_out nefc_out efc_type_out efc_id_out efc_jtdaj_adr_out efc_jtdaj_nrow_out efc_jtdaj_nblock_out efc_J_rownnz_out efc_J_rowadr_out efc_J_colind_out efc_J_out efc_pos_out efc_margin_out efc_D_out efc_vel_out efc_aref_out efc_frictionloss_out efc_nnz_out (1 : Int) st_is_sparse_and_newton alloc1 eq_data_shape0 qpos0_shape0 dof_invweight0_shape0 true (1 : Int) opt_timestep_shape0 eq_solref_shape0 eq_solimp_shape0 cl_rowadr tid0 tid1) "efc_nnz_out" [tid0] 1 1
-    ∧ cellI (Gen.Constraint._equality_joint__kernel nv opt_timestep opt_disableflags qpos0 jnt_qposadr jnt_dofadr dof_invweight0 eq_obj1id (fun _ => -1) eq_solref eq_solimp eq_data eq_jnt_adr qpos_in qvel_in (fun _ _ => true) (2 : Int) (1 : Int) ne_out nefc_out efc_type_out efc_id_out efc_jtdaj_adr_out efc_jtdaj_nrow_out efc_jtdaj_nblock_out efc_J_rownnz_out efc_J_rowadr_out efc_J_colind_out efc_J_out efc_pos_out efc_margin_out efc_D_out efc_vel_out efc_aref_out efc_frictionloss_out efc_nnz_out (1 : Int) st_is_sparse_and_newton alloc1 eq_data_shape0 qpos0_shape0 dof_invweight0_shape0 true (1 : Int) opt_timestep_shape0 eq_solref_shape0 eq_solimp_shape0 cl_rowadr tid0 tid1) "efc_J_rownnz_out" tid0 1 1
-    ∧ (∀ r v, ¬ cellI (Gen.Constraint._equality_joint__kernel nv opt_timestep opt_disableflags qpos0 jnt_qposadr jnt_dofadr dof_invweight0 eq_obj1id (fun _ => -1) eq_solref eq_solimp eq_data eq_jnt_adr qpos_in qvel_in (fun _ _ => true) (2 : Int) (1 : Int) ne_out nefc_out efc_type_out efc_id_out efc_jtdaj_adr_out efc_jtdaj_nrow_out efc_jtdaj_nblock_out efc_J_rownnz_out efc_J_rowadr_out efc_J_colind_out efc_J_out efc_pos_out efc_margin_out efc_D_out efc_vel_out efc_aref_out efc_frictionloss_out efc_nnz_out (1 : Int) st_is_sparse_and_newton alloc1 eq_data_shape0 qpos0_shape0 dof_invweight0_shape0 true (1 : Int) opt_timestep_shape0 eq_solref_shape0 eq_solimp_shape0 cl_rowadr tid0 tid1) "efc_J_rowadr_out" tid0 r v)
-    ∧ ∀ r, ¬ writesRow (Gen.Constraint._equality_joint__kernel nv opt_timestep opt_disableflags qpos0 jnt_qposadr jnt_dofadr dof_invweight0 eq_obj1id (fun _ => -1) eq_solref eq_solimp eq_data eq_jnt_adr qpos_in qvel_in (fun _ _ => true) (2 : Int) (1 : Int) ne_out nefc_out efc_type_out efc_id_out efc_jtdaj_adr_out efc_jtdaj_nrow_out efc_jtdaj_nblock_out efc_J_rownnz_out efc_J_rowadr_out efc_J_colind_out efc_J_out efc_pos_out efc_margin_out efc_D_out efc_vel_out efc_aref_out efc_frictionloss_out efc_nnz_out (1 : Int) st_is_sparse_and_newton alloc1 eq_data_shape0 qpos0_shape0 dof_invweight0_shape0 true (1 : Int) opt_timestep_shape0 eq_solref_shape0 eq_solimp_shape0 cl_rowadr tid0 tid1) "efc_type_out" tid0 r := by
-  have hr : reached (Gen.Constraint._equality_joint__kernel nv opt_timestep opt_disableflags qpos0 jnt_qposadr jnt_dofadr dof_invweight0 eq_obj1id (fun _ => -1) eq_solref eq_solimp eq_data eq_jnt_adr qpos_in qvel_in (fun _ _ => true) (2 : Int) (1 : Int) ne_out nefc_out efc_type_out efc_id_out efc_jtdaj_adr_out efc_jtdaj_nrow_out efc_jtdaj_nblock_out efc_J_rownnz_out efc_J_rowadr_out efc_J_colind_out efc_J_out efc_pos_out efc_margin_out efc_D_out efc_vel_out efc_aref_out efc_frictionloss_out efc_nnz_out (1 : Int) st_is_sparse_and_newton alloc1 eq_data_shape0 qpos0_shape0 dof_invweight0_shape0 true (1 : Int) opt_timestep_shape0 eq_solref_shape0 eq_solimp_shape0 cl_rowadr tid0 tid1) "nefc_out" [tid0] := by
-    unfold Gen.Constraint._equality_joint__kernel; ksimp []
-  have hd : ¬ allocFits (Gen.Constraint._equality_joint__kernel nv opt_timestep opt_disableflags qpos0 jnt_qposadr jnt_dofadr dof_invweight0 eq_obj1id (fun _ => -1) eq_solref eq_solimp eq_data eq_jnt_adr qpos_in qvel_in (fun _ _ => true) (2 : Int) (1 : Int) ne_out nefc_out efc_type_out efc_id_out efc_jtdaj_adr_out efc_jtdaj_nrow_out efc_jtdaj_nblock_out efc_J_rownnz_out efc_J_rowadr_out efc_J_colind_out efc_J_out efc_pos_out efc_margin_out efc_D_out efc_vel_out efc_aref_out efc_frictionloss_out efc_nnz_out (1 : Int) st_is_sparse_and_newton alloc1 eq_data_shape0 qpos0_shape0 dof_invweight0_shape0 true (1 : Int) opt_timestep_shape0 eq_solref_shape0 eq_solimp_shape0 cl_rowadr tid0 tid1) "efc_nnz_out" [tid0] 1 1 := by
-    unfold Gen.Constraint._equality_joint__kernel; ksimp []
-  refine ⟨hr, hd, ?_, ?_, ?_⟩
-  · unfold Gen.Constraint._equality_joint__kernel; ksimp [cellI]
-  · exact (Props.C16.equality_joint_dropped_cells nv opt_timestep opt_disableflags qpos0 jnt_qposadr jnt_dofadr dof_invweight0 eq_obj1id (fun _ => -1) eq_solref eq_solimp eq_data eq_jnt_adr qpos_in qvel_in (fun _ _ => true) (2 : Int) (1 : Int) ne_out nefc_out efc_type_out efc_id_out efc_jtdaj_adr_out efc_jtdaj_nrow_out efc_jtdaj_nblock_out efc_J_rownnz_out efc_J_rowadr_out efc_J_colind_out efc_J_out efc_pos_out efc_margin_out efc_D_out efc_vel_out efc_aref_out efc_frictionloss_out efc_nnz_out (1 : Int) st_is_sparse_and_newton alloc1 eq_data_shape0 qpos0_shape0 dof_invweight0_shape0 true (1 : Int) opt_timestep_shape0 eq_solref_shape0 eq_solimp_shape0 cl_rowadr tid0 tid1 hr (by norm_num) rfl hd).2
-  · exact Props.C16.equality_joint_nnz_dropped nv opt_timestep opt_disableflags qpos0 jnt_qposadr jnt_dofadr dof_invweight0 eq_obj1id (fun _ => -1) eq_solref eq_solimp eq_data eq_jnt_adr qpos_in qvel_in (fun _ _ => true) (2 : Int) (1 : Int) ne_out nefc_out efc_type_out efc_id_out efc_jtdaj_adr_out efc_jtdaj_nrow_out efc_jtdaj_nblock_out efc_J_rownnz_out efc_J_rowadr_out efc_J_colind_out efc_J_out efc_pos_out efc_margin_out efc_D_out efc_vel_out efc_aref_out efc_frictionloss_out efc_nnz_out (1 : Int) st_is_sparse_and_newton alloc1 eq_data_shape0 qpos0_shape0 dof_invweight0_shape0 true (1 : Int) opt_timestep_shape0 eq_solref_shape0 eq_solimp_shape0 cl_rowadr tid0 tid1 rfl hd
-end nnz_joint
-
-section nnz_joint_nt
-variable {K : Type} [Scalar K] (opt_timestep : (Int → K)) (time_in : (Int → K)) (nworld_in : Int) (time_out : (Int → K)) (opt_timestep_shape0 : Int) (st_warn_overflow : Bool) (tid0 : Int)
-
-/-- `_next_time` of that world: `nefc = 2 = njmax`, last row 1, `rowadr[1] = 0` (stale), `rownnz[1] = 1` (B's write):
-    `0 + 1 ≤ 1`, no bit — although B's nnz request was dropped and row 1 is missing. -/
-theorem nnz_overflow_silent_two_joints_witness :
-    ∀ w ∈ (Gen.Forward._next_time_builder___next_time opt_timestep true (fun _ => 2) time_in (fun _ _ => 1) (fun _ _ => 0) nworld_in (0 : Int) (2 : Int) (1 : Int) (fun _ => 0) (fun _ => 0) time_out (fun _ => 0) opt_timestep_shape0 st_warn_overflow tid0), w.arr ≠ "overflow_out" := by
-  have hws : (Gen.Forward._next_time_builder___next_time opt_timestep true (fun _ => 2) time_in (fun _ _ => 1) (fun _ _ => 0) nworld_in (0 : Int) (2 : Int) (1 : Int) (fun _ => 0) (fun _ => 0) time_out (fun _ => 0) opt_timestep_shape0 st_warn_overflow tid0) = [⟨"time_out", [tid0], WVal.f (time_in tid0 + opt_timestep (Int.tmod tid0 opt_timestep_shape0)), WKind.set⟩] := by
-    unfold Gen.Forward._next_time_builder___next_time
-    simp
-  rw [hws]; simp
-end nnz_joint_nt
-
 end Mjw.Props.C16Witness
-
